@@ -399,6 +399,47 @@ func runC03(c *Ctx) {
 
 	c.rule("C03.O3", "the ban of a detected liar is recorded: "+banRecordedDoc, func() { c.banRecorded() })
 
+	c.rule("C03.G5", "an answer is taken for what was asked only: the callback of getCFHeadersForAllPeers records a peer's cfheaders message (headers[addr] = m) only behind the type assertion, m.StopHash == the requested stop hash, m.FilterType == the requested type and len(m.FilterHashes) == the number of headers asked for (an over-long answer that agrees on the requested range would be written whole by writeCFHeadersMsg: filter headers past the block tip, later a false header committed and the honest peers banned)", func() {
+		fn := c.fn("(*neutrino.blockManager).getCFHeadersForAllPeers")
+		msgT := c.P.Named(pWire, "MsgCFHeaders")
+		stopF := c.field(pWire, "MsgCFHeaders", "StopHash")
+		typF := c.field(pWire, "MsgCFHeaders", "FilterType")
+		hashesF := c.field(pWire, "MsgCFHeaders", "FilterHashes")
+		n := 0
+		for _, cl := range fn.AnonFuncs {
+			ups := find(cl, func(in ssa.Instruction) bool {
+				mu, ok := in.(*ssa.MapUpdate)
+				if !ok {
+					return false
+				}
+				p, ok := mu.Value.Type().(*types.Pointer)
+				return ok && msgT != nil && types.Identical(p.Elem(), msgT)
+			})
+			if len(ups) == 0 {
+				continue
+			}
+			n++
+			var asserts []ssa.Instruction
+			ir.Instrs(cl, func(in ssa.Instruction) {
+				if ta, ok := in.(*ssa.TypeAssert); ok && ta.CommaOk {
+					if p, ok := ta.AssertedType.(*types.Pointer); ok && types.Identical(p.Elem(), msgT) {
+						asserts = append(asserts, in)
+					}
+				}
+			})
+			c.guarded(cl, okIs("resp.(*wire.MsgCFHeaders)", asserts), 1, "headers[peer] = m", ups, 1, gDominate)
+			any := func(ssa.Value) bool { return true }
+			c.guarded(cl, equalIs("m.StopHash vs the requested stop hash", find(cl, binops(eqOps, loadsField(stopF), any)), true), 1, "headers[peer] = m", ups, 1, gDominate)
+			c.guarded(cl, equalIs("m.FilterType vs the requested filter type", find(cl, binops(eqOps, loadsField(typF), any)), true), 1, "headers[peer] = m", ups, 1, gDominate)
+			isLen := func(v ssa.Value) bool {
+				call, ok := ir.Strip(v).(*ssa.Call)
+				return ok && isBuiltin("len")(call) && loadsField(hashesF)(call.Call.Args[0])
+			}
+			c.guarded(cl, equalIs("len(m.FilterHashes) vs the number of headers asked for", find(cl, binops(eqOps, isLen, any)), true), 1, "headers[peer] = m", ups, 1, gDominate)
+		}
+		c.verdict(n == 1, c.nm(fn)+" | one response callback records answers", c.P.Pos(fn.Pos()), "one callback", fmt.Sprintf("%d function literal(s) of getCFHeadersForAllPeers store a *wire.MsgCFHeaders into a map, 1 tabled", n))
+	})
+
 	c.rule("C03.O4", "every peer is heard before peers are judged: the response callbacks the block manager hands to queryAllPeers (getCheckpts, getCFHeadersForAllPeers, fetchFilterFromAllPeers) may retire the answering peer (close(peerQuit)) but never end the whole query (close(quit)): a peer that has not answered yet would be treated as silent and, in a dispute, banned, while the remaining answers are never compared", func() {
 		qf := c.field("neutrino", "blockManagerCfg", "queryAllPeers")
 		var bad, sites []string
